@@ -32,8 +32,9 @@ PROPERTY = {
     "trusted_base": ["CPython, gcc; neither back end is taken as the reference: a difference is a violation whichever side is wrong "
                      "(a defect shared by both -- e.g. in the lifter -- is not seen here); generator and comparison are written in "
                      "props/jitrun.py / props/C20.py"],
-    "assumptions": ["x86-32, ARM and AArch64 (little endian) guests (the other architectures' JitCore extensions are not built by the harness); "
-                    "the ARM / AArch64 families have ~40 / ~55 instruction forms, no faults", "LLVM back end "
+    "assumptions": ["x86-32, ARM, AArch64 and MIPS32 (little endian) guests (the other architectures' JitCore extensions are not built by the "
+                    "harness); the ARM / AArch64 / MIPS32 families have ~40 / ~50 / ~45 instruction forms (MIPS32: branches with filled "
+                    "delay slots), no faults", "LLVM back end "
                     "not available (no llvmlite)", "seeded family: 48 quick / 600 thorough programs"],
 }
 
@@ -437,7 +438,151 @@ class BackendCasesA64(BoundedContract):
         return (True, "", True)
 
 
+# MIPS32 (little endian) ------------------------------------------------------------------------------------------------------------
+
+MIPS_R = ["A0", "A1", "A2", "A3", "V0", "V1", "T0", "T1", "T2", "T3"]
+MIPS_POOL = ["ADDIU %s, %s, 0x10", "ADDIU %s, %s, 0xFFFFFFF0", "ADDU %s, %s, %s", "SUBU %s, %s, %s", "AND %s, %s, %s", "OR %s, %s, %s", "XOR %s, %s, %s",
+             "NOR %s, %s, %s", "SLT %s, %s, %s", "SLTU %s, %s, %s", "SLTI %s, %s, 0x10", "SLTIU %s, %s, 0x20", "SLL %s, %s, 0x3", "SRL %s, %s, 0x4",
+             "SRA %s, %s, 0x1F", "SLLV %s, %s, %s", "SRLV %s, %s, %s", "SRAV %s, %s, %s", "LUI %s, 0x1234", "ORI %s, %s, 0x1234", "ANDI %s, %s, 0xFF",
+             "XORI %s, %s, 0xFF", "MULT %s, %s", "MULTU %s, %s", "MFLO %s", "MFHI %s", "MUL %s, %s, %s", "MOVN %s, %s, %s", "MOVZ %s, %s, %s",
+             "SEB %s, %s", "SEH %s, %s", "WSBH %s, %s", "EXT %s, %s, 0x4, 0x8", "INS %s, %s, 0x4, 0x8", "ROTR %s, %s, 0x3", "MTLO %s", "MTHI %s",
+             "ORI %s, %s, 0x1\n    DIVU A0, %s"]
+MIPS_MEM = ["LW %s, 0x%x(S0)", "SW %s, 0x%x(S0)", "LB %s, 0x%x(S0)", "LBU %s, 0x%x(S0)", "LH %s, 0x%x(S0)", "LHU %s, 0x%x(S0)", "SB %s, 0x%x(S0)", "SH %s, 0x%x(S0)"]
+
+
+def mips_instr(rng):
+    if rng.random() < 0.25:
+        t = rng.choice(MIPS_MEM)
+        off = rng.randrange(0, 32)
+        m = t.split()[0]
+        if m in ("LW", "SW"):
+            off &= ~3
+        elif m in ("LH", "LHU", "SH"):
+            off &= ~1
+        return t % (rng.choice(MIPS_R), off)
+    t = rng.choice(MIPS_POOL)
+    if "DIVU" in t:
+        d = rng.choice(MIPS_R[1:])
+        return t % (d, d, d)
+    return t % tuple(rng.choice(MIPS_R) for _ in range(t.count("%s")))
+
+
+def mips_program(rng):
+    lines = ["main:", "    ADDU S7, RA, ZERO"]
+    n = rng.randint(2, 5)
+
+    def slot():
+        # the instruction of the delay slot executes whether the branch is taken or not
+        return "    NOP" if rng.random() < 0.5 else "    " + rng.choice(("ADDIU T4, T4, 0x1", "XOR T5, T5, A0", "SW A1, 0x20(S0)", "ADDU T6, A0, A1"))
+    for i in range(n):
+        lines.append("g%d:" % i)
+        lines += ["    " + mips_instr(rng) for _ in range(rng.randint(4, 12))]
+        if rng.random() < 0.3:
+            lines += ["    JAL sub", slot()]
+        if i + 1 < n and rng.random() < 0.7:
+            tgt = "g%d" % rng.randrange(i + 1, n)
+            k = rng.random()
+            if k < 0.5:
+                lines.append("    %s %s, %s, %s" % (rng.choice(("BEQ", "BNE")), rng.choice(MIPS_R), rng.choice(MIPS_R + ["ZERO"]), tgt))
+            elif k < 0.9:
+                lines.append("    %s %s, %s" % (rng.choice(("BLEZ", "BGTZ", "BLTZ", "BGEZ")), rng.choice(MIPS_R), tgt))
+            else:
+                lines.append("    J %s" % tgt)
+            lines.append(slot())
+    lines += ["    JR S7", "    NOP", "sub:", "    ADDIU T8, T8, 0x3", "    XOR T9, T9, T8", "    JR RA", "    NOP"]
+    return "\n".join(lines) + "\n"
+
+
+class BackendCasesMips(BoundedContract):
+    BOUND = "seeded family of MIPS32 (little endian) programs from a pool of ~45 instruction forms, branches with filled delay slots (props/C20.py)"
+    CASE_SECONDS = 300
+
+    def funcs(self):
+        jitrun.build_exts()
+        from miasm.arch.mips32.jit import mipsCGen
+        from miasm.jitter.jitcore_python import JitCore_Python
+        return [mipsCGen.block2assignblks, JitCore_Python.add_block]
+
+    def cases(self):
+        return list(range(32 if self.tier == "quick" else 400))
+
+    def gen(self, case):
+        rng = random.Random(20320 + case)
+        return rng, mips_program(rng)
+
+    def show(self, case):
+        return "MIPS32 program #%d: %s" % (case, jitrun.show_program(self.gen(case)[1]))
+
+    def check(self, case):
+        b = jitrun.build_exts()
+        from miasm.analysis.machine import Machine
+        from miasm.arch.mips32.arch import mn_mips32
+        from miasm.core import asmblock, parse_asm
+        from miasm.core.interval import interval
+        from miasm.core.locationdb import LocationDB
+        from miasm.jitter.csts import PAGE_READ, PAGE_WRITE
+        rng, text = self.gen(case)
+        loc_db = LocationDB()
+        try:
+            asmcfg = parse_asm.parse_txt(mn_mips32, "l", text, loc_db)
+            loc_db.set_location_offset(loc_db.get_name_location("main"), jitrun.CODE)
+            patches = asmblock.asm_resolve_final(mn_mips32, asmcfg, interval([(jitrun.CODE, jitrun.CODE + 0xF00)]))
+        except Exception as ex:     # noqa
+            return (False, "harness: the MIPS32 program does not assemble (%s: %s)" % (type(ex).__name__, str(ex)[:120]), True)
+        code = bytearray(0x1000)
+        for o, d in patches.items():
+            code[o - jitrun.CODE:o - jitrun.CODE + len(d)] = d
+        names = MIPS_R + ["T4", "T5", "T6", "T7", "T8", "T9", "S1", "S2"]
+        regs = dict((r, rng.choice((0, 1, 0xFFFFFFFF, 0x80000000, 0x7FFFFFFF, rng.getrandbits(32), rng.getrandbits(8)))) for r in names)
+        data = bytes(rng.getrandbits(8) for _ in range(0x40))
+        results = []
+        for backend, maxline in (("python", 50), ("gcc", 50), ("gcc", rng.choice((1, 2, 3)))):
+            j = Machine("mips32l").jitter(LocationDB(), backend)
+            if not sys.modules["miasm.jitter.arch.JitCore_mips32"].__file__.startswith(b["dir"]):
+                return (False, "harness: the MIPS32 jitter does not use the extension compiled from the tree", True)
+            if backend == "gcc":
+                j.jit.libs = list(b["libs_mips32"])
+                j.jit.tempdir = b["cache"]
+            j.jit.set_options(jit_maxline=maxline)
+            j.vm.add_memory_page(jitrun.CODE, PAGE_READ | PAGE_WRITE, bytes(code), "code")
+            j.vm.add_memory_page(jitrun.DATA, PAGE_READ | PAGE_WRITE, b"\x00" * 0x100 + data + b"\x00" * (0x1000 - 0x100 - len(data)), "data")
+            j.init_stack()
+            for r, v in regs.items():
+                setattr(j.cpu, r, v)
+            j.cpu.S0 = jitrun.DATA + 0x100
+            j.cpu.RA = jitrun.END
+            j.add_breakpoint(jitrun.END, lambda jj: False)
+            steps = [0]
+
+            def cb(jj):
+                steps[0] += 1
+                return steps[0] < 2000
+            j.exec_cb = cb
+            try:
+                j.init_run(jitrun.CODE)
+                res = j.continue_run()
+            except Exception as ex:     # noqa
+                import traceback
+                tb = traceback.extract_tb(ex.__traceback__)[-1]
+                return (False, "%s back end (jit_maxline %d): the run raises %s: %s (%s:%d)" % (backend, maxline, type(ex).__name__, str(ex)[:160],
+                                                                                            tb.filename.split("/")[-1], tb.lineno), True)
+            st = {"pc": j.pc, "res": res, "exc": (j.vm.get_exception(), j.cpu.get_exception()), "data": j.vm.get_mem(jitrun.DATA, 0x1000)}
+            for r in names + ["S0", "S7", "SP", "RA", "R_LO", "R_HI"]:
+                st[r] = getattr(j.cpu, r)
+            results.append((backend, maxline, st))
+        b0, m0, s0 = results[0]
+        for b1, m1, s1 in results[1:]:
+            for k in s0:
+                if s0[k] != s1[k]:
+                    if k == "data":
+                        o = next(o for o in range(0x1000) if s0[k][o] != s1[k][o])
+                        return (False, "data byte %#x = %#04x under %s (jit_maxline %d), %#04x under %s" % (jitrun.DATA + o, s1[k][o], b1, m1, s0[k][o], b0), True)
+                    return (False, "%s = %r under %s (jit_maxline %d), %r under %s" % (k, s1[k] if not isinstance(s1[k], int) else hex(s1[k]), b1, m1,
+                                                                                       s0[k] if not isinstance(s0[k], int) else hex(s0[k]), b0), True)
+        return (True, "", True)
+
+
 def targets(tier):
     return (chunked(BackendCases, "C20/backends", 16, tier) + chunked(BackendCasesArm, "C20/backends-arm", 16, tier) +
-            chunked(BackendCasesA64, "C20/backends-aarch64", 16, tier))
+            chunked(BackendCasesA64, "C20/backends-aarch64", 16, tier) + chunked(BackendCasesMips, "C20/backends-mips32", 16, tier))
 
